@@ -12,6 +12,8 @@ import (
 	"fmt"
 	"net"
 	"os"
+	"runtime"
+	"strings"
 	"time"
 
 	gnet "github.com/panjf2000/gnet/v2"
@@ -116,8 +118,28 @@ func runStartFault(w *tr.Writer, seed uint64, idx int) {
 	case <-time.After(5 * time.Second):
 		// (the descriptor checks below are meaningless while Run is still running: only the stall is reported)
 		w.Fail("engine-start", "run-did-not-return", "Run / Client.Start+Stop did not return within 5 s after a failing start")
+		if os.Getenv("VERIF_STALL_DUMP") != "" {
+			buf := make([]byte, 1<<20)
+			n := runtime.Stack(buf, true)
+			os.WriteFile(fmt.Sprintf("%s/stall-%d-%d.txt", os.Getenv("VERIF_STALL_DUMP"), os.Getpid(), idx), buf[:n], 0o644)
+		}
 		w.End()
 		return
+	}
+	// nothing of the framework may still be polling once Run / Stop has returned: a goroutine left in
+	// epoll_wait on the number of a closed poller takes the events of whoever gets that number next
+	left := 0
+	for try := 0; try < 50; try++ {
+		buf := make([]byte, 1<<20)
+		n := runtime.Stack(buf, true)
+		left = strings.Count(string(buf[:n]), "netpoll.(*Poller).Polling")
+		if left == 0 {
+			break
+		}
+		time.Sleep(2 * time.Millisecond)
+	}
+	if left > 0 {
+		w.Fail("fd-not-owned", "goroutine-left-polling", fmt.Sprintf("%d goroutine(s) of the framework are still inside Poller.Polling after Run / Client.Stop returned (start in which %s #%d %s)", left, name, index, kind))
 	}
 	rec.mu.Lock()
 	hit := rec.startFaultHit
